@@ -6,7 +6,7 @@
 // serve: findBackend, TLSProxyHandler, wait loop; behind bfe_tls via bfe_util.MockServer) between a scripted
 // client and a scripted backend on loopback TCP.
 //
-// op     : <ws|tls|tlsr>;pc=<hex>;pb=<hex>;s=<step>,<step>,...      step = c:<hex> | b:<hex> | xc | xb
+// op     : <ws|tls|tlsr|t10c|t11c|t12c|t12g>;pc=<hex>;pb=<hex>;s=<step>,<step>,...      step = c:<hex> | b:<hex> | xc | xb
 //
 //	pc: bytes the client sends in the SAME write as the upgrade request (ws) / right behind the handshake (tls)
 //	pb: bytes the backend sends in the SAME write as its 101 response (ws) / immediately on accept (tls)
@@ -18,6 +18,8 @@ package main
 
 import (
 	"bytes"
+	stdtls "crypto/tls"
+	"encoding/binary"
 	"fmt"
 	"io"
 	"net"
@@ -138,9 +140,10 @@ func setup() {
 	// TLS stream proxy
 	tlsSrv = bfe_util.NewUnstartedServer(nil)
 	tlsSrv.TLS = new(bfe_tls.Config)
-	tlsSrv.TLS.NextProtos = append(tlsSrv.TLS.NextProtos, "stream")
+	tlsSrv.TLS.NextProtos = append(tlsSrv.TLS.NextProtos, "stream", "wr")
 	tlsSrv.Config.TLSNextProto = make(map[string]func(*bfe_http.Server, *bfe_tls.Conn, bfe_http.Handler))
 	tlsSrv.Config.TLSNextProto["stream"] = bfe_stream.NewProtoHandler(&bfe_stream.Server{BalanceHandler: balance})
+	tlsSrv.Config.TLSNextProto["wr"] = wrHandler
 	tlsSrv.StartTLS()
 	primeResume()
 }
@@ -214,6 +217,104 @@ func primeResume() {
 	c.Close()
 }
 
+// stdClient: tunnel variants whose client is Go's crypto/tls at a fixed version and cipher suite, so that the client
+// side of the tunnel inside bfe is a bfe_tls server Conn writing TLS 1.0 CBC (1/n-1 record split), TLS 1.1 CBC or
+// TLS 1.2 AEAD records.
+var stdClient = map[string]struct {
+	vers  uint16
+	suite uint16
+}{
+	"t10c": {stdtls.VersionTLS10, stdtls.TLS_ECDHE_RSA_WITH_AES_128_CBC_SHA},
+	"t11c": {stdtls.VersionTLS11, stdtls.TLS_ECDHE_RSA_WITH_AES_128_CBC_SHA},
+	"t12c": {stdtls.VersionTLS12, stdtls.TLS_ECDHE_RSA_WITH_AES_128_CBC_SHA},
+	"t12g": {stdtls.VersionTLS12, stdtls.TLS_ECDHE_RSA_WITH_AES_128_GCM_SHA256},
+}
+
+func stdCfg(name, proto string) *stdtls.Config {
+	v := stdClient[name]
+	return &stdtls.Config{InsecureSkipVerify: true, NextProtos: []string{proto},
+		MinVersion: v.vers, MaxVersion: v.vers, CipherSuites: []uint16{v.suite}}
+}
+
+// direct io.Writer contract of bfe_tls.Conn.Write: op `wr;v=<t10c|t11c|t12c|t12g>;n=<len>[,<len>...]`.
+// The bfe_tls server conn performs one Write per length; result `k=<count>/<err>,... rcv=<bytes the client got> same=<0|1>`.
+type wrOut struct {
+	ks   []string
+	sent []byte
+}
+
+var wrRes = make(chan wrOut, 4)
+
+func wrHandler(hs *bfe_http.Server, c *bfe_tls.Conn, h bfe_http.Handler) {
+	defer c.Close()
+	var out wrOut
+	hdr := make([]byte, 4)
+	if _, err := io.ReadFull(c, hdr); err != nil {
+		wrRes <- out
+		return
+	}
+	cnt := int(binary.BigEndian.Uint32(hdr))
+	p := &pat{pos: 7}
+	for i := 0; i < cnt; i++ {
+		if _, err := io.ReadFull(c, hdr); err != nil {
+			break
+		}
+		b := p.take(int(binary.BigEndian.Uint32(hdr)), 'w')
+		k, err := c.Write(b)
+		e := 0
+		if err != nil {
+			e = 1
+		}
+		out.ks = append(out.ks, fmt.Sprintf("%d/%d", k, e))
+		out.sent = append(out.sent, b...)
+	}
+	wrRes <- out
+}
+
+func execWrite(f []string) string {
+	if len(f) != 3 || !strings.HasPrefix(f[1], "v=") || !strings.HasPrefix(f[2], "n=") {
+		return "bad-op"
+	}
+	if _, ok := stdClient[f[1][2:]]; !ok {
+		return "bad-op"
+	}
+	var lens []int
+	for _, x := range strings.Split(f[2][2:], ",") {
+		var n int
+		if _, err := fmt.Sscanf(x, "%d", &n); err != nil || n < 0 || n > 1<<20 {
+			return "bad-op"
+		}
+		lens = append(lens, n)
+	}
+	for len(wrRes) > 0 {
+		<-wrRes
+	}
+	sc, err := stdtls.Dial("tcp", tlsSrv.Listener.Addr().String(), stdCfg(f[1][2:], "wr"))
+	if err != nil {
+		return "err:std-dial:" + err.Error()
+	}
+	defer sc.Close()
+	req := make([]byte, 4, 4+4*len(lens))
+	binary.BigEndian.PutUint32(req, uint32(len(lens)))
+	for _, n := range lens {
+		var x [4]byte
+		binary.BigEndian.PutUint32(x[:], uint32(n))
+		req = append(req, x[:]...)
+	}
+	if _, err := sc.Write(req); err != nil {
+		return "err:write-req"
+	}
+	sc.SetReadDeadline(time.Now().Add(wait))
+	got, _ := io.ReadAll(sc)
+	var out wrOut
+	select {
+	case out = <-wrRes:
+	case <-time.After(wait):
+		return "err:no-result"
+	}
+	return fmt.Sprintf("k=%s rcv=%d same=%d", strings.Join(out.ks, ","), len(got), b2i(bytes.Equal(got, out.sent)))
+}
+
 const upgradeReq = "GET /tunnel HTTP/1.1\r\nHost: verif.local\r\nUpgrade: websocket\r\nConnection: Upgrade\r\n" +
 	"Sec-WebSocket-Key: dGhlIHNhbXBsZSBub25jZQ==\r\nSec-WebSocket-Version: 13\r\n\r\n"
 const upgradeRsp = "HTTP/1.1 101 Switching Protocols\r\nUpgrade: websocket\r\nConnection: Upgrade\r\n" +
@@ -242,7 +343,11 @@ type halfCloser interface{ CloseWrite() error }
 func exec(op string) string {
 	once.Do(setup)
 	f := strings.Split(op, ";")
-	if len(f) != 4 || (f[0] != "ws" && f[0] != "tls" && f[0] != "tlsr") || !strings.HasPrefix(f[1], "pc=") ||
+	if f[0] == "wr" {
+		return execWrite(f)
+	}
+	_, isStd := stdClient[f[0]]
+	if len(f) != 4 || (f[0] != "ws" && f[0] != "tls" && f[0] != "tlsr" && !isStd) || !strings.HasPrefix(f[1], "pc=") ||
 		!strings.HasPrefix(f[2], "pb=") || !strings.HasPrefix(f[3], "s=") {
 		return "bad-op"
 	}
@@ -261,7 +366,7 @@ func exec(op string) string {
 			switch {
 			case s == "xc" || s == "xb":
 				steps = append(steps, step{kind: s})
-			case strings.HasPrefix(s, "c:") || strings.HasPrefix(s, "b:"):
+			case strings.HasPrefix(s, "c:") || strings.HasPrefix(s, "b:") || strings.HasPrefix(s, "C:") || strings.HasPrefix(s, "B:"):
 				d, ok := vh.UnHex(s[2:])
 				if !ok {
 					return "bad-op"
@@ -296,6 +401,23 @@ func exec(op string) string {
 		}
 		if _, err = cli.Write(append([]byte(upgradeReq), pc...)); err != nil {
 			return "err:write-upgrade"
+		}
+	} else if isStd {
+		// the client side of the tunnel is a bfe_tls SERVER conn at a chosen version / suite; Go's crypto/tls is the client
+		cfg := stdCfg(f[0], "stream")
+		sc, err := stdtls.Dial("tcp", tlsSrv.Listener.Addr().String(), cfg)
+		if err != nil {
+			return "err:std-dial:" + err.Error()
+		}
+		if st := sc.ConnectionState(); st.Version != cfg.MinVersion || st.NegotiatedProtocol != "stream" {
+			sc.Close()
+			return "err:std-negotiation"
+		}
+		cli = sc
+		if len(pc) > 0 {
+			if _, err = cli.Write(pc); err != nil {
+				return "err:write-pc"
+			}
 		}
 	} else if f[0] == "tls" {
 		cfg := &bfe_tls.Config{InsecureSkipVerify: true, NextProtos: []string{"stream"}}
@@ -378,6 +500,24 @@ func exec(op string) string {
 				break
 			}
 			sentB += len(s.data)
+		case "C": // a round: the client writes and the script goes on only when the backend has it
+			if _, err := cli.Write(s.data); err != nil {
+				closed = "c"
+				break
+			}
+			sentC += len(s.data)
+			if !bc.waitFor(func() bool { return len(bc.buf) >= sentC || bc.done }) {
+				closed = "c"
+			}
+		case "B": // a round: the backend writes and the script goes on only when the client has it
+			if _, err := bk.Write(s.data); err != nil {
+				closed = "b"
+				break
+			}
+			sentB += len(s.data)
+			if !cc.waitFor(func() bool { return len(cc.buf) >= sentB || cc.done }) {
+				closed = "b"
+			}
 		case "xc": // the client has seen everything sent to it so far, then closes; its own bytes may be in flight
 			cc.waitFor(func() bool { return len(cc.buf) >= sentB || cc.done })
 			cli.Close()
@@ -446,14 +586,44 @@ func size(r *vh.Rand) int {
 	return r.Range(1, 64)
 }
 
+var stdNames = []string{"t10c", "t10c", "t11c", "t12c", "t12g"}
+
+func genWrite(r *vh.Rand) string {
+	k := r.Range(1, 4)
+	var ns []string
+	for i := 0; i < k; i++ {
+		n := 0
+		switch r.Intn(8) {
+		case 0:
+			n = r.Intn(3)
+		case 1:
+			n = r.Range(16380, 16390) // around maxPlaintext
+		case 2:
+			n = r.Range(32760, 32775)
+		case 3:
+			n = r.Range(16384, 70000)
+		default:
+			n = r.Range(2, 4000)
+		}
+		ns = append(ns, fmt.Sprint(n))
+	}
+	return fmt.Sprintf("wr;v=%s;n=%s", stdNames[r.Intn(len(stdNames))], strings.Join(ns, ","))
+}
+
 func gen(r *vh.Rand) string {
+	if r.Chance(1, 8) {
+		return genWrite(r)
+	}
 	proto := "ws"
 	switch r.Intn(20) {
 	case 0, 1, 2, 3, 4:
 		proto = "tls"
-	case 5, 6, 7, 8, 9, 10:
+	case 5, 6, 7, 8, 9:
 		proto = "tlsr" // resumed session, first data coalesced with the client's Finished
+	case 10, 11, 12, 13:
+		proto = stdNames[r.Intn(len(stdNames))] // bfe_tls server conn at TLS 1.0/1.1 CBC or 1.2 CBC/AEAD towards the client
 	}
+	_, std := stdClient[proto]
 	pc, pb := &pat{}, &pat{pos: 1 << 20}
 	var pcb, pbb []byte
 	if r.Chance(2, 3) {
@@ -475,9 +645,20 @@ func gen(r *vh.Rand) string {
 	}
 	var steps []string
 	k := r.Intn(7)
+	if std && k < 3 {
+		k = r.Range(3, 6)
+	}
 	for i := 0; i < k; i++ {
-		if r.Bool() {
-			steps = append(steps, "c:"+vh.Hex(pc.take(size(r), 'c')))
+		// rounds (C:/B:) keep writes apart so that each is relayed by its own Read/Write; always for the std-client variants
+		sync := std || r.Chance(1, 4)
+		if r.Bool() && !(std && i < 2) {
+			if sync {
+				steps = append(steps, "C:"+vh.Hex(pc.take(size(r), 'c')))
+			} else {
+				steps = append(steps, "c:"+vh.Hex(pc.take(size(r), 'c')))
+			}
+		} else if sync {
+			steps = append(steps, "B:"+vh.Hex(pb.take(size(r)+1, 'b')))
 		} else {
 			steps = append(steps, "b:"+vh.Hex(pb.take(size(r), 'b')))
 		}
